@@ -203,6 +203,57 @@ theorem skipScan_reach {p : P} {slen e : Nat} {failOn ignorer : Option Nat} (loc
     | idx => rfl
     | fail c l => cases c <;> first | rfl | (rw [hp] at hsoft; simp [Out.soft] at hsoft)
 
+/-! ### the second pass of Or (re-parse with actions, core.py 4313-4331) -/
+
+/-- `if longest[0] >= loc1: return longest` does not fire -/
+def p2Guard (longest : Option (Nat × List Tok)) (loc1 : Nat) : Bool :=
+  match longest with
+  | some (ll, _) => decide (loc1 ≤ ll)
+  | none => false
+
+def mxUpd (mx : Option Nat) (l : Nat) : Option Nat :=
+  match mx with
+  | none => some l
+  | some m => if l > m then some l else some m
+
+/-- the second pass of Or gets from the state `(candidates, longest, mx)` to another one by re-parses that came
+    out shorter than their trial match, or failed softly -/
+inductive Pass2Reach (p : P) (loc : Nat) :
+    List (Nat × Nat) → Option (Nat × List Tok) → Option Nat →
+    List (Nat × Nat) → Option (Nat × List Tok) → Option Nat → Prop
+  | refl (cs lg mx) : Pass2Reach p loc cs lg mx cs lg mx
+  | shorter {loc1 e rest lg mx l2 ts cs' lg' mx'} : p2Guard lg loc1 = false → p e loc true true = .ok l2 ts →
+      l2 < loc1 →
+      Pass2Reach p loc rest (if (match lg with
+          | some (ll, _) => decide (l2 > ll)
+          | none => true) then some (l2, ts) else lg) mx cs' lg' mx' →
+      Pass2Reach p loc ((loc1, e) :: rest) lg mx cs' lg' mx'
+  | soft {loc1 e rest lg mx l cs' lg' mx'} : p2Guard lg loc1 = false → p e loc true true = .fail .parse l →
+      Pass2Reach p loc rest lg (mxUpd mx l) cs' lg' mx' →
+      Pass2Reach p loc ((loc1, e) :: rest) lg mx cs' lg' mx'
+
+theorem orPass2_guard (p : P) (loc loc1 e : Nat) (rest : List (Nat × Nat)) (lg : Option (Nat × List Tok))
+    (mx : Option Nat) (h : p2Guard lg loc1 = false) :
+    orPass2 p loc ((loc1, e) :: rest) lg mx = orPass2.orStep p loc loc1 e rest lg mx := by
+  unfold orPass2
+  cases lg with
+  | none => rfl
+  | some x => obtain ⟨ll, lt⟩ := x; simp [p2Guard] at h; simp; omega
+
+theorem orPass2_reach {p : P} {loc : Nat} {cs lg mx cs' lg' mx'} (h : Pass2Reach p loc cs lg mx cs' lg' mx') :
+    orPass2 p loc cs lg mx = orPass2 p loc cs' lg' mx' := by
+  induction h with
+  | refl => rfl
+  | shorter hg hp hlt _ ih =>
+    rw [orPass2_guard _ _ _ _ _ _ _ hg, ← ih]
+    simp only [orPass2.orStep, hp]
+    rw [if_neg (by omega)]
+    rfl
+  | soft hg hp _ ih =>
+    rw [orPass2_guard _ _ _ _ _ _ _ hg, ← ih]
+    simp only [orPass2.orStep, hp, mxUpd]
+    rfl
+
 /-- one propagating call position inside `parseImpl g p nd s pre acts`; see the module comment -/
 inductive ImplStep (g : Grammar) (s : List Char) (p : P) (nd : Node) (pre : Nat) (acts : Bool) :
     Tag → Nat → Nat → Bool → Bool → Prop
@@ -252,6 +303,13 @@ inductive ImplStep (g : Grammar) (s : List Char) (p : P) (nd : Node) (pre : Nat)
       (if es.all (callPreOf g) then preParse p nd s pre else PreR.at pre) = .at loc2 →
       orPass1 p (nameLenOf g) s.length loc2 es {} = some a → sortDesc a.cands = (l1, e) :: rest →
       ImplStep g s p nd pre acts .plain e loc2 acts true
+  /-- Or, actions on: a shorter trial match parsed again, after the re-parses of the longer ones came out short or
+      failed softly -/
+  | orLater {es loc2 a loc1 e rest lg mx} : nd.kind = .or es → acts = true →
+      (if es.all (callPreOf g) then preParse p nd s pre else PreR.at pre) = .at loc2 →
+      orPass1 p (nameLenOf g) s.length loc2 es {} = some a →
+      Pass2Reach p loc2 (sortDesc a.cands) none a.mx ((loc1, e) :: rest) lg mx → p2Guard lg loc1 = false →
+      ImplStep g s p nd pre acts .plain e loc2 true true
   /-- Or: an ignore-expression run by the pre-parse Or.parseImpl does itself (4268-4274) -/
   | orIgnore {es ie il} : nd.kind = .or es → es.all (callPreOf g) = true → nd.ignore.isEmpty = false →
       IgnCall p s.length nd.ignore pre ie il → ImplStep g s p nd pre acts .plain ie il true true
@@ -367,6 +425,22 @@ theorem implStep_fail {g : Grammar} {s : List Char} {p : P} {nd : Node} {pre : N
         have : orPass2 p l' ((l1, e) :: rest) none a.mx = .inl (.fail c l) := by
           cases c <;> simp [Exc.isFatal] at hfat <;> simp [orPass2, orPass2.orStep, hf]
         simp [orAt, h1, hne, hsort, this]
+    unfold parseImpl; simp only [hk, orImpl, hpre, hor, Tag.app]
+  | @orLater es l' a loc1 e rest lg mx hk hacts hpre h1 hreach hg =>
+    have hfat := hcf (by simp)
+    subst hacts
+    have hne : a.cands.isEmpty = false := by
+      cases hc' : a.cands with
+      | nil =>
+        rw [hc'] at hreach; simp only [sortDesc] at hreach
+        generalize hcs : ([] : List (Nat × Nat)) = cs at hreach
+        cases hreach <;> cases hcs
+      | cons x xs => rfl
+    have h2 : orPass2 p l' (sortDesc a.cands) none a.mx = .inl (.fail c l) := by
+      rw [orPass2_reach hreach, orPass2_guard _ _ _ _ _ _ _ hg]
+      cases c <;> simp [Exc.isFatal] at hfat <;> simp [orPass2.orStep, hf]
+    have hor : orAt p (nameLenOf g) s.length true es l' = .fail c l := by
+      simp [orAt, h1, hne, h2]
     unfold parseImpl; simp only [hk, orImpl, hpre, hor, Tag.app]
   | @orIgnore es ie il hk hall hne hig =>
     have hfat := hcf (by simp)
